@@ -90,15 +90,24 @@ def run(rep, tier, args):
 
 
 def selftest(rep, trace, wd, cfg):
-    lines = [l.rstrip("\n") for l in open(trace)][:400]
-    for i in range(len(lines) - 1, 0, -1):
-        o = json.loads(lines[i])
-        if o["ev"] == "Finish" and o["res"] == "Ok" and o["da"] > 0:
-            o["da"] -= 1
-            lines[i] = json.dumps(o, separators=(",", ":"))
-            lines = lines[:i + 1]
-            break
-    else:
+    """The binding is not vacuous: lower one produced da_height; TLC must judge a violation."""
+    reset, group, lines = None, [], None
+    for ln in open(trace):
+        ln = ln.rstrip("\n")
+        if ln.startswith('{"ev":"reset"'):
+            reset = ln
+        elif ln.startswith('{"ev":"Call"'):
+            group = [ln]
+        else:
+            group.append(ln)
+            if ln.startswith('{"ev":"Finish"'):
+                o = json.loads(ln)
+                if o["res"] == "Ok" and o["da"] > 0:
+                    o["da"] -= 1
+                    group[-1] = json.dumps(o, separators=(",", ":"))
+                    lines = [reset] + group
+                    break
+    if lines is None:
         raise vlib.ToolError("self-test: no Ok result to corrupt")
     p = os.path.join(wd, "selftest.ndjson")
     open(p, "w").write("\n".join(lines) + "\n")
